@@ -10,7 +10,7 @@ use crate::model::*;
 use crate::ops::*;
 use crate::yffi as c;
 use serde::{Deserialize, Serialize};
-use serde_json::Value;
+use serde_json::{json, Value};
 use std::collections::BTreeMap;
 use std::ffi::{c_char, CStr, CString};
 use std::ptr::{null, null_mut};
@@ -451,13 +451,13 @@ unsafe fn apply_c(d: &CDoc, txn: *mut c::Transaction, kind: OffsetKind, model: &
                 c::yxmlelem_remove_attr(b, txn, k.s(key));
             }
         }
-        Op::MTryUpdate { .. } | Op::MGetOrInit { .. } | Op::Quote { .. } | Op::Link { .. } => return Err("no C counterpart".into()),
+        Op::MTryUpdate { .. } | Op::MGetOrInit { .. } | Op::Quote { .. } | Op::Link { .. } | Op::TEmbedT { .. } => return Err("no C counterpart".into()),
     }
     Ok(())
 }
 
 pub fn has_c_counterpart(op: &Op) -> bool {
-    !matches!(op, Op::MTryUpdate { .. } | Op::MGetOrInit { .. } | Op::Quote { .. } | Op::Link { .. })
+    !matches!(op, Op::MTryUpdate { .. } | Op::MGetOrInit { .. } | Op::Quote { .. } | Op::Link { .. } | Op::TEmbedT { .. })
 }
 
 // ---------------------------------------------------------------------------------------------
@@ -1860,8 +1860,79 @@ fn enumerate(fam: Fam, level: u8, with_cells: bool, depth: usize, model: &Model,
     }
 }
 
+/// JSON text cells (`yinput_json`): the text and the value it denotes (integers beyond +-(2^53-1) are exact 64-bit values,
+/// everything else a double - the rule of `Any`)
+fn json_texts() -> Vec<(String, AnyV)> {
+    let mut v: Vec<(String, AnyV)> = vec![
+        ("null".into(), AnyV::Null),
+        ("true".into(), AnyV::Bool(true)),
+        ("1.5".into(), AnyV::num(1.5)),
+        ("-2.5e3".into(), AnyV::num(-2500.0)),
+        ("\"h\u{e9}\u{1f600}\"".into(), AnyV::s("h\u{e9}\u{1f600}")),
+        ("[]".into(), AnyV::Arr(vec![])),
+        ("[1,[\"x\",null],-9007199254740993]".into(), AnyV::Arr(vec![AnyV::num(1.0), AnyV::Arr(vec![AnyV::s("x"), AnyV::Null]), AnyV::Big(-9007199254740993)])),
+        ("{\"k\":[false,9007199254740995]}".into(), AnyV::Map([("k".to_string(), AnyV::Arr(vec![AnyV::Bool(false), AnyV::Big(9007199254740995)]))].into_iter().collect())),
+    ];
+    const SAFE: i64 = (1i64 << 53) - 1;
+    for n in [0i64, 1, -1, SAFE - 1, SAFE, SAFE + 1, SAFE + 2, SAFE + 3, SAFE + 4, (1i64 << 62) + 1, i64::MAX - 1, i64::MAX] {
+        for x in [n, n.wrapping_neg(), if n > 1 { -n - 1 } else { n }] {
+            let want = if x >= -SAFE && x <= SAFE { AnyV::num(x as f64) } else { AnyV::Big(x) };
+            v.push((x.to_string(), want));
+        }
+    }
+    v.sort_by(|a, b| a.0.cmp(&b.0));
+    v.dedup_by(|a, b| a.0 == b.0);
+    v
+}
+
+unsafe fn run_json_cell(text: &str, want: &AnyV) -> Result<(), (String, String)> {
+    let d = CDoc::new(1, false, true);
+    let (a, _) = d.root('a');
+    let (m, _) = d.root('m');
+    let txn = c::ydoc_write_transaction(d.doc, 0, null());
+    let cs = CString::new(text).map_err(|e| ("harness".to_string(), e.to_string()))?;
+    let key = CString::new("k").unwrap();
+    let cell = c::yinput_json(cs.as_ptr() as *mut c_char);
+    c::yarray_insert_range(a, txn, 0, &cell, 1);
+    c::ymap_insert(m, txn, key.as_ptr() as *mut c_char, &cell);
+    let got = c_dump_all(&d, txn as *const c::Transaction, OffsetKind::Bytes).map_err(|e| ("json-cell:c-getter".to_string(), e))?;
+    c::ytransaction_commit(txn);
+    // the twin: the denoted value inserted natively
+    let t = twin_doc(1, false, true);
+    let roots = Roots::new(&t);
+    {
+        let mut w = t.transact_mut();
+        yrs::Array::insert(&roots.a, &mut w, 0, want.to_any());
+        yrs::Map::insert(&roots.m, &mut w, "k", want.to_any());
+    }
+    let r = t.transact();
+    let tw = roots.dump_all(&r);
+    if got != tw {
+        return Err(("json-cell:value-differs-from-native".to_string(), format!("yinput_json({}) reads back as {} but the natively inserted value {} reads {}", text, show(&got), show_any(want), show(&tw))));
+    }
+    Ok(())
+}
+
 fn run(ctx: &mut Ctx) {
     let mut idx = 0u64;
+    // JSON text cells
+    if ctx.shard == 0 {
+        let texts = json_texts();
+        ctx.count("json_text_cells", texts.len() as u64);
+        for (text, want) in texts {
+            let cj = || json!({"kind": "json-cell", "text": text});
+            let res = ctx.exec(&cj, |ctx| {
+                ctx.count("transitions", 2);
+                unsafe { run_json_cell(&text, &want) }
+            });
+            match res {
+                Some(Err((class, msg))) if class == "harness" => ctx.machinery_error(msg),
+                Some(Err((class, msg))) => ctx.violation("c-vs-rust", &class, msg, cj()),
+                _ => {}
+            }
+            ctx.state(hash_of(&("json-cell", &text)));
+        }
+    }
     for (fam, depth, level, with_cells) in bounds(ctx.tier) {
         let mut progs: Vec<Vec<Op>> = Vec::new();
         enumerate(fam, level, with_cells, depth, &empty_model(), &mut Vec::new(), &mut |p| {
@@ -1910,6 +1981,20 @@ fn run(ctx: &mut Ctx) {
 }
 
 fn replay(ctx: &mut Ctx, case: &Value) {
+    if case["kind"] == "json-cell" {
+        let text = case["text"].as_str().unwrap_or("").to_string();
+        let want = json_texts().into_iter().find(|(t, _)| *t == text);
+        let cj = || case.clone();
+        match want {
+            Some((_, want)) => {
+                if let Some(Err((class, msg))) = ctx.exec(&cj, |_| unsafe { run_json_cell(&text, &want) }) {
+                    ctx.violation("c-vs-rust", &class, msg, cj());
+                }
+            }
+            None => ctx.machinery_error(format!("unknown json cell {}", text)),
+        }
+        return;
+    }
     match serde_json::from_value::<Case>(case.clone()) {
         Ok(c) => {
             let cj = || case.clone();
